@@ -38,8 +38,27 @@ def _compute_recession_curve(specific_yield, transmissivity_m2_d, zeta_grid_mm, 
                                                    / (-et_mm_d - curvature_km * transmissivity_m2_d(z)))))
     ghost(after="elapsed_time_d = np.cumsum(", let="g_G", do=lambda: [g_Q(zeta_grid_mm[k]) for k in range(len(zeta_grid_mm))])
     ghost(after="elapsed_time_d = np.cumsum(", do=lambda: telescoping(dt_d, elapsed_time_d, g_G))
+    ghost(after="elapsed_time_d = np.cumsum(", let="g_W0", do=lambda: elapsed_time_d)
+    ghost(after="elapsed_time_d += ", do=lambda: shifted_sum(g_W0, prefix_sums(g_W0), elapsed_time_d, prefix_sums(elapsed_time_d),
+                                                             mean_elapsed_time_d - seq_mean(g_W0)))
+    ensures(seq_mean(result) == mean_elapsed_time_d)
     ensures(len(result) == len(zeta_grid_mm))
     ensures(forall(0, len(result), lambda i: forall(0, len(result), lambda j:
             result[j] - result[i] == g_Q(zeta_grid_mm[j]) - g_Q(zeta_grid_mm[i]))))
     loop(0, inv=lambda it: i == it + 1 and len(dt_d) == len(zeta_grid_mm) and dt_d[0] == 0
          and forall(1, it + 1, lambda k: dt_d[k] == g_Q(zeta_grid_mm[k]) - g_Q(zeta_grid_mm[k - 1])))
+
+
+@contract("spowtd.simulate_rise:compute_rise_curve#mean",
+          args={"specific_yield": "obj[spowtd.specific_yield:SpecificYield]", "zeta_grid_mm": "array[real]",
+                "mean_storage_mm": "real"}, returns="array[real]", nonlinear="nra")
+def _compute_rise_curve_mean(specific_yield, zeta_grid_mm, mean_storage_mm, result):
+    """C17: the mean of the returned curve is the requested mean (real arithmetic: adding
+    c = requested mean - mean(W) to every element shifts the sum by n c)."""
+    requires(len(zeta_grid_mm) >= 1)
+    requires(len(specific_yield._spline._tck[0]) >= 2 and lo_knot(specific_yield._spline) < hi_knot(specific_yield._spline))
+    ghost(after="W_mm = np.cumsum(", let="g_W0", do=lambda: W_mm)
+    ghost(after="W_mm += ", do=lambda: shifted_sum(g_W0, prefix_sums(g_W0), W_mm, prefix_sums(W_mm), mean_storage_mm - seq_mean(g_W0)))
+    ensures(len(result) == len(zeta_grid_mm))
+    ensures(seq_mean(result) == mean_storage_mm)
+    loop(0, inv=lambda it: i == it + 1 and len(dW_mm) == len(zeta_grid_mm))
